@@ -1,7 +1,7 @@
 (* C12 - discriminated unions pick exactly the tagged class in any definition order.
    Model: Verif.Discr (state machine), reference notions: Verif.DiscrSpec. *)
 From Coq Require Import List Arith Bool.
-From Verif Require Import Discr DiscrSpec DiscrProofs DiscrKF.
+From Verif Require Import Discr DiscrSpec DiscrProofs DiscrRef.
 Import ListNotations.
 
 (* invariant over arbitrary histories: every registry of every site holds only true bindings
@@ -18,45 +18,51 @@ Print Assumptions C12_registry_invariant.
 Theorem C12_registry : forall acc sites pre i s inp t present,
   nth_error sites i = Some s -> s_field s = true -> site_ok s (length (defs pre)) = true ->
   assoc (s_fid s) inp = Some (Hashable t) ->          (* the site's key is present in the input and its value is t *)
-  tag_unique (defs pre) s t -> plain_carriers sites (defs pre) s t -> no_keyerror acc (defs pre) s t present ->
+  tag_unique (defs pre) s t -> plain_carriers sites (defs pre) s t ->
   exists o, snd (step acc sites (final acc sites pre) (Decode i inp present)) = Some o
             /\ field_spec acc (defs pre) s t present o.
-Proof. exact decode_field_correct. Qed.
+Proof. intros acc sites pre i s inp t present Hs Hf OK. exact (decode_field_correct acc sites pre i s inp t present Hs Hf OK eq_refl). Qed.
 Print Assumptions C12_registry.
 
-(* the full statement has no [no_keyerror] hypothesis; the faithful model violates it: *)
-Definition C12_registry_full : Prop := forall acc sites pre i s inp t present,
-  nth_error sites i = Some s -> s_field s = true -> site_ok s (length (defs pre)) = true ->
-  assoc (s_fid s) inp = Some (Hashable t) -> tag_unique (defs pre) s t -> plain_carriers sites (defs pre) s t ->
-  exists o, snd (step acc sites (final acc sites pre) (Decode i inp present)) = Some o
-            /\ field_spec acc (defs pre) s t present o.
-
-(* Known finding C12/variant-keyerror-misreported: the class carrying the tag IS found, its own from_dict raises a
-   KeyError (a __pre_deserialize__ hook), the dispatcher takes that for a registry miss, refills, retries and reports
-   SuitableVariantNotFound - "no class carries this tag" - although one does. *)
-Definition s_ke : site := Site [0] true false true false false false 0 0.
+(* the selected class's own KeyError surfaces as such (fix C12-variant-keyerror-misreported: only the registry lookup is
+   guarded): carrier with a raising hook -> OKeyErr, not "no suitable variant" *)
+Definition s_ke : site := Site [0] true false true false false false 0 0 false.
 Definition h_ke : list op := [Define [] [] [] [] false; Define [0] [(0, 1)] [] [] true].
-Theorem C12_variant_keyerror_refuted : ~ C12_registry_full.
+Example C12_variant_keyerror_surfaces :
+  snd (step acc_req [s_ke] (final acc_req [s_ke] h_ke) (Decode 0 [(0, Hashable 1)] [kerr_marker])) = Some (OKeyErr 1)
+  /\ snd (step acc_req [s_ke] (final acc_req [s_ke] h_ke) (Decode 0 [(0, Hashable 1)] [])) = Some (OInst 1).
+Proof. vm_compute. split; reflexivity. Qed.
+
+(* FULL STRENGTH, no hypothesis about nested dispatchers: after ANY history the stateful dispatcher (registries, refills,
+   retries, nested class-level dispatchers of either mode, rejecting classes) answers exactly what the registry-free
+   reference semantics [ref_decode] says for the classes defined so far - provided only that every tag the input carries
+   is carried by at most one eligible class at the dispatcher that reads it (uniq_all; computable: uniq_allb) *)
+Theorem C12_dispatch_ref : forall acc sites pre i inp present,
+  uniq_all sites (defs pre) inp ->
+  snd (step acc sites (final acc sites pre) (Decode i inp present)) = Some (ref_decode acc sites (defs pre) i inp present).
+Proof. intros acc sites pre i inp present UA. exact (decode_ref acc sites pre i inp present UA (no_crash_always sites)). Qed.
+Print Assumptions C12_dispatch_ref.
+
+Theorem C12_history_independent_full : forall acc sites pre1 pre2 i inp present,
+  defs pre1 = defs pre2 -> uniq_all sites (defs pre1) inp ->
+  snd (step acc sites (final acc sites pre1) (Decode i inp present))
+  = snd (step acc sites (final acc sites pre2) (Decode i inp present)).
 Proof.
-  intros F.
-  assert (U: tag_unique (defs h_ke) s_ke 1).
-  { apply (proj1 (tag_uniqueb_iff (defs h_ke) s_ke 1 (wf_defs h_ke) eq_refl)). reflexivity. }
-  destruct (F acc_req [s_ke] h_ke 0 s_ke [(0, Hashable 1)] 1 [kerr_marker] eq_refl eq_refl eq_refl eq_refl U (fun c _ => eq_refl))
-    as [o [E [_ [_ [N _]]]]].
-  vm_compute in E. injection E as <-.
-  apply (proj1 N eq_refl 1). split.
-  - left. split; [reflexivity|]. exists 0. split; [left; reflexivity|].
-    apply desc_child. exists (Cls [0] [(0, 1)] [] [] true). split; [reflexivity | left; reflexivity].
-  - exists (Cls [0] [(0, 1)] [] [] true). split; [reflexivity | left; reflexivity].
+  intros acc sites pre1 pre2 i inp present E UA.
+  exact (history_independent_ref acc sites pre1 pre2 i inp present E UA (no_crash_always sites)).
 Qed.
-Print Assumptions C12_variant_keyerror_refuted.
+Print Assumptions C12_history_independent_full.
+
+Theorem C12_uniq_all_decidable : forall sites ops inp, uniq_allb sites (defs ops) inp = true -> uniq_all sites (defs ops) inp.
+Proof. intros sites ops inp. apply uniq_allb_sound, wf_defs. Qed.
+Print Assumptions C12_uniq_all_decidable.
 
 (* ONE from_dict call of a holder with several discriminated fields = the list of its (site, sub-input) pairs: every
    field is decided by its OWN site - own registry, own key, own tagger function (seq_spec: each field satisfies the
    field_spec of its own site; the first failing field decides the error).  The sites do not interfere: this is what
    /repo fix 79143aa (one tagger name per dispatcher) repaired. *)
 Theorem C12_multi_field : forall acc sites pre l,
-  (forall e, In e l -> entry_ok acc sites (defs pre) e) ->
+  (forall e, In e l -> entry_ok sites (defs pre) e) ->
   exists o, snd (step acc sites (final acc sites pre) (DecodeSeq l)) = Some o
             /\ seq_spec acc (defs pre) sites l [] o.
 Proof. exact multi_field_correct. Qed.
@@ -104,10 +110,12 @@ Theorem C12_history_independent : forall acc sites1 sites2 pre1 pre2 i1 i2 s inp
   assoc (s_fid s) inp1 = Some (Hashable t) -> assoc (s_fid s) inp2 = Some (Hashable t) ->
   defs pre1 = defs pre2 -> site_ok s (length (defs pre1)) = true -> tag_unique (defs pre1) s t ->
   plain_carriers sites1 (defs pre1) s t -> plain_carriers sites2 (defs pre1) s t ->
-  no_keyerror acc (defs pre1) s t present ->
   snd (step acc sites1 (final acc sites1 pre1) (Decode i1 inp1 present))
   = snd (step acc sites2 (final acc sites2 pre2) (Decode i2 inp2 present)).
-Proof. exact history_independent. Qed.
+Proof.
+  intros acc sites1 sites2 pre1 pre2 i1 i2 s inp1 inp2 t present H1 H2 Hf T1 T2 E OK.
+  exact (history_independent acc sites1 sites2 pre1 pre2 i1 i2 s inp1 inp2 t present H1 H2 Hf T1 T2 E OK eq_refl).
+Qed.
 Print Assumptions C12_history_independent.
 
 (* include_subtypes / include_supertypes bound exactly the classes that are tried: the walk
@@ -142,7 +150,7 @@ Print Assumptions C12_tag_unique_decidable.
 (* Remark (not a violation: the property is silent when two eligible classes share a tag): without
    uniqueness the answer depends on the history - a registry filled before the second class was
    defined keeps the first class, a fresh one answers with the last class of the walk. *)
-Definition s_demo : site := Site [0] true false true false false false 0 0.
+Definition s_demo : site := Site [0] true false true false false false 0 0 false.
 Definition h_stale : list op :=
   [Define [] [] [] [] false; Define [0] [(0, 1)] [] [] false; Decode 0 [(0, Hashable 1)] []; Define [0] [(0, 1)] [] [] false].
 Definition h_fresh : list op :=
@@ -159,10 +167,10 @@ Print Assumptions C12_nonunique_order_dependent.
    its own class-level discriminator is a dispatcher over its strict subclasses, so a tag carried by such a
    class is answered by SuitableVariantNotFound - this is what the hypothesis plain_carriers excludes. *)
 Definition sites_nested : list site :=
-  [Site [0] true false true false true false 0 0; Site [1] true false true false true false 0 0].
+  [Site [0] true false true false true false 0 0 false; Site [1] true false true false true false 0 0 false].
 Definition h_nested : list op := [Define [] [] [] [] false; Define [0] [(0, 1)] [] [] false; Define [1] [(0, 2)] [] [] false].
 Theorem C12_class_level_self_excluded :
-  carries (defs h_nested) (Site [0] true false true false true false 0 0) 1 1
+  carries (defs h_nested) (Site [0] true false true false true false 0 0 false) 1 1
   /\ snd (step acc_req sites_nested (final acc_req sites_nested h_nested) (Decode 0 [(0, Hashable 1)] [])) = Some ONotFound
   /\ snd (step acc_req sites_nested (final acc_req sites_nested h_nested) (Decode 0 [(0, Hashable 2)] [])) = Some (OInst 2).
 Proof.
@@ -173,22 +181,29 @@ Proof.
 Qed.
 Print Assumptions C12_class_level_self_excluded.
 
-(* Known finding C12/nofield-inherited-unpacker, exhibited in the faithful model DiscrKF (no-field mode through a
-   nailed holder over plain dataclasses): once C0's unpacker is compiled, C1(C0) - eligible and accepting - is skipped,
-   which contradicts the no-field clause; without the earlier decode the same call answers C1. *)
-Theorem C12_nofield_inherited_unpacker_refuted :
-  nth_error (krun kf_sites (kf_pre ++ [Decode 1 [] [0; 1]])) 3 = Some (Some ONotFound)
-  /\ ~ nofield_spec acc_req (defs kf_pre) (Site [1] false true false false false false 0 0) [0; 1] ONotFound
-  /\ nofield_spec acc_req (defs kf_pre) (Site [1] false true false false false false 0 0) [0; 1] (OInst 1)
-  /\ nth_error (krun kf_sites [Define [] [] [] [0] false; Define [0] [] [] [1] false; Decode 1 [] [0; 1]]) 2 = Some (Some (OInst 1)).
-Proof. exact nofield_inherited_unpacker_refuted. Qed.
-Print Assumptions C12_nofield_inherited_unpacker_refuted.
+(* Former known finding C12/nofield-inherited-unpacker (repaired by /repo 233f7d4: an unpacker that is only INHERITED
+   counts as not compiled): no-field mode has no state at all - the answer through site 1 is C1 whether or not C0's
+   unpacker was compiled by an earlier decode through another site (instance of C12_nofield). *)
+Definition pl_sites : list site :=
+  [Site [0] false true false false false false 0 0 false; Site [1] false true false false false false 0 0 false].
+Definition pl_pre : list op := [Define [] [] [] [0] false; Define [0] [] [] [1] false; Decode 0 [] [0]].
+Theorem C12_nofield_plain_holder :
+  snd (step acc_req pl_sites (final acc_req pl_sites pl_pre) (Decode 1 [] [0; 1])) = Some (OInst 1)
+  /\ snd (step acc_req pl_sites (final acc_req pl_sites [Define [] [] [] [0] false; Define [0] [] [] [1] false]) (Decode 1 [] [0; 1])) = Some (OInst 1)
+  /\ nofield_spec acc_req (defs pl_pre) (Site [1] false true false false false false 0 0 false) [0; 1] (OInst 1).
+Proof.
+  split; [reflexivity|]. split; [reflexivity|].
+  destruct (C12_nofield acc_req pl_sites pl_pre 1 (Site [1] false true false false false false 0 0 false) [] [0; 1]
+              eq_refl eq_refl eq_refl (fun c _ => eq_refl)) as [o [E S]].
+  vm_compute in E. injection E as <-. exact S.
+Qed.
+Print Assumptions C12_nofield_plain_holder.
 
 (* Two levels of class-level dispatchers with DIFFERENT keys (outer key 0, inner key 1): outer tag valid, inner key
    absent -> MissingDiscriminator (the inner error is not a KeyError, the outer dispatcher lets it through); inner key
    present -> the inner subclass; the stale/fresh state of either registry is irrelevant. *)
 Definition sites_2key : list site :=
-  [Site [0] true false true false true false 0 0; Site [1] true false true false true false 1 0].
+  [Site [0] true false true false true false 0 0 false; Site [1] true false true false true false 1 0 false].
 Definition h_2key : list op := [Define [] [] [] [] false; Define [0] [(0, 5)] [] [] false; Define [1] [(1, 7)] [] [] false].
 Theorem C12_nested_missing_key :
   snd (step acc_req sites_2key (final acc_req sites_2key h_2key) (Decode 0 [(0, Hashable 5)] [])) = Some OMissing
@@ -217,17 +232,13 @@ Proof.
     destruct (C12_registry acc_req [s_demo] h_late 0 s_demo [(0, Hashable 3)] 3 [] eq_refl eq_refl eq_refl eq_refl
                 (proj1 (C12_tag_unique_decidable h_late s_demo 3 eq_refl) eq_refl)
                 (fun c _ => eq_refl)) as [o [E S]].
-    { intros c _. (* acceptance never raises KeyError here: no class has the hook *)
-      assert (K: forall k present, c_kerr k = false -> acc_req k present <> VKeyError).
-      { intros k pr H. unfold acc_req. rewrite H. cbn. destruct (forallb _ _); discriminate. }
-      apply K. destruct c as [|[|[|[|c]]]]; try reflexivity. destruct c; reflexivity. }
     vm_compute in E. injection E as <-. apply (proj1 (proj1 S 3) eq_refl).
 Qed.
 
 (* non-vacuity of C12_multi_field: a holder with two discriminated fields over two hierarchies with different tagger
    functions (ids 0 and 1) and different keys; the same tag value means different classes at the two sites *)
 Definition sites_mf : list site :=
-  [Site [0] true false true true false false 0 0; Site [1] true false true true false false 1 1].
+  [Site [0] true false true true false false 0 0 false; Site [1] true false true true false false 1 1 false].
 Definition h_mf : list op :=
   [Define [] [] [] [] false; Define [] [] [] [] false;
    Define [0] [] [(0, [5]); (1, [6])] [] false; Define [1] [] [(0, [6]); (1, [5])] [] false].
@@ -241,8 +252,8 @@ Proof. vm_compute. repeat split. Qed.
 (* mixed nesting, in the model: a no-field class-level dispatcher below a field one and a field one below a no-field
    one (class 1 dispatches its subclasses by acceptance, class 4 by key 0) *)
 Definition sites_mix : list site :=
-  [Site [0] true false true false true false 0 0; Site [1] true false false false true false 0 0;
-   Site [4] true false true false true false 0 0].
+  [Site [0] true false true false true false 0 0 false; Site [1] true false false false true false 0 0 false;
+   Site [4] true false true false true false 0 0 false].
 Definition h_mix : list op :=
   [Define [] [] [] [] false; Define [0] [(0, 1)] [] [] false; Define [1] [] [] [7] false; Define [1] [] [] [8] false;
    Define [1] [] [] [9] false; Define [4] [(0, 2)] [] [] false].
@@ -255,10 +266,19 @@ Example C12_mixed_nesting :
 Proof. vm_compute. repeat split. Qed.
 
 (* no-field mode: subclass wins over the base although the base accepts too; base only as a last resort *)
-Definition s_nf : site := Site [0] true true false false false false 0 0.
+Definition s_nf : site := Site [0] true true false false false false 0 0 false.
 Definition h_nf : list op := [Define [] [] [] [0] false; Define [0] [] [] [1] false; Define [0] [] [] [2] false].
 Example C12_nofield_nonvacuous :
   snd (step acc_req [s_nf] (final acc_req [s_nf] h_nf) (Decode 0 [] [0; 2])) = Some (OInst 2)
   /\ snd (step acc_req [s_nf] (final acc_req [s_nf] h_nf) (Decode 0 [] [0])) = Some (OInst 0)
   /\ snd (step acc_req [s_nf] (final acc_req [s_nf] h_nf) (Decode 0 [] [1])) = Some ONotFound.
+Proof. vm_compute. repeat split. Qed.
+
+(* non-vacuity of C12_dispatch_ref: the mixed nesting above (field -> no-field -> field) satisfies uniq_allb, and the
+   reference semantics gives the nested answers *)
+Example C12_dispatch_ref_nonvacuous :
+  uniq_allb sites_mix (defs h_mix) [(0, Hashable 1)] = true
+  /\ ref_decode acc_req sites_mix (defs h_mix) 0 [(0, Hashable 1)] [8] = OInst 3
+  /\ ref_decode acc_req sites_mix (defs h_mix) 1 [(0, Hashable 2)] [9] = OInst 5
+  /\ ref_decode acc_req sites_mix (defs h_mix) 0 [(0, Hashable 2)] [] = ORej 5.
 Proof. vm_compute. repeat split. Qed.
